@@ -412,7 +412,10 @@ def remove_block(
         cfi_directives,
     )
 
-    if can_remove:
+    if can_remove or proxy_block:
+        # Symbols and incoming edges go to the proxy block whenever one was
+        # requested, even if the block has to be kept as a zero-sized block
+        # (e.g. for its CFI directives).
         sym_target = proxy_block or next_block or prev_block
         cache.reference_cache.retarget_references(
             block, sym_target, sym_target is prev_block
@@ -425,6 +428,7 @@ def remove_block(
         else:
             _retarget_incoming_edges(block, None)
 
+    if can_remove:
         if retarget_to_proxy:
             _update_functions_aux_data(cache, block, None)
             _update_module_entrypoints(block, None)
